@@ -87,7 +87,11 @@ PROPS = {
                       "deadlocks (C07_no_deadlock), every trace is bounded (C07_terminates_all), a quiescent configuration is final (C07_completes); "
                       "fewer than MaximumTaskCall activations of a task pass the counter, the others return 204, and so does a reference whose wait "
                       "would close a cycle through a run: once / when_changed task (C07_cycle_error, C07_cycle_error_dedup; 201 wrapping through task: "
-                      "calls). The hang of the rule before the fix is kept as a fact about that rule only (C07_old_rule_deadlock). Tie: event log of the "
+                      "calls). The call limit counts references, not depth: an ACYCLIC program that refers to one task 1000 times ends with 204 — the model "
+                      "mirrors the code, the full statement is refuted (C07_acyclic_no_204_counterexample), what holds is C07_no_204_if_refs_lt_max, the "
+                      "monitor callLimitMon (verdict C07a) prints the open finding C07-call-limit-hits-acyclic-graphs on the many-refs stream. A returned "
+                      "activation that passed its guards and recorded no failure has done all its work (C07_all_work_done). "
+                      "The hang of the rule before the fix is kept as a fact about that rule only (C07_old_rule_deadlock). Tie: event log of the "
                       "real executor replayed through the same `replay` (a log that ends without a result is never accepted), boundOk evaluated on the "
                       "raw log; the placement of the wait-for bookkeeping and of the waitCycle hook inside the dedup critical section, and the context "
                       "of deferred commands, pinned by SchedTie; a stream of reference cycles through deduplicated tasks (ring, several top-level calls "
@@ -123,7 +127,9 @@ PROPS = {
         "level_text": "Theorems over every trace the executor LTS accepts (all programs, flags, failing positions, interleavings, cancellations): deferred "
                       "entries start in strictly decreasing index order (reverse registration order, none twice); when an activation has finished its "
                       "deferred part it has run exactly the registered entries reversed; deferred results never change the task's result or EXIT_CODE; "
-                      "EXIT_CODE seen = status of the failing command. Tie: the event log of the real executor (verif hooks) for generated task graphs "
+                      "EXIT_CODE seen = status of the failing command — by deferred commands and, through `vars: {V: '{{.EXIT_CODE}}'}`, by the callees of deferred "
+                      "task: entries (C14_deferred_call_sees_exit_code; value monitor, verdict C02v); what ran is the list of defer: entries of the PROGRAM below "
+                      "the point the body reached, reversed — all of them when the body ran to its end (C14_regs_are_program, C14_all_run_complete). Tie: the event log of the real executor (verif hooks) for generated task graphs "
                       "is replayed through the same `replay`; every log must be accepted and pass the same monitors.",
         "level_note": "Trusted: Lean kernel; hook placement; harness rendering of abstract programs; schedule coverage is whatever seeded jitter reaches "
                       "(the theorem, not the sampling, covers all interleavings of the model).",
@@ -302,7 +308,9 @@ _sched("C01", "Theorems over every accepted trace of the executor LTS (all progr
               "by references of one task only, so a dependency 'served' by the execution of a different task is a rejected log.")
 _sched("C06", "Theorems over every accepted trace: a dedup key is registered at most once and held by exactly one activation; only the registering "
               "activation runs a body, every other activation meeting the key becomes a waiter that never starts a command and returns the execution's "
-              "outcome after it finished — also when that one execution was cut short by a cancellation local to the caller that started it (stream "
+              "outcome after it finished; which key a reference gets — one per run: once task, one per (when_changed task, value), never shared by two tasks — "
+              "is the monitor keyMon evaluated on every log (verdict C06k; C06_key_discipline, C06_key_owner: the acceptor alone accepts fresh keys); beyond "
+              "the call limit the 1000th reference of a run: once task fails instead of waiting (open finding C06-call-limit-hits-many-references); also when that one execution was cut short by a cancellation local to the caller that started it (stream "
               "cut-short); run: always never dedups. Key half (Props.C06Key): with a hash that reaches every part of the compiled task two "
               "references of a when_changed task get the same key iff they are called with the same set of variable values, so for every arrival order "
               "the executions are exactly one per distinct set (whenChanged_exact, _order_indep); once executes the first reference only, always every "
@@ -346,7 +354,10 @@ PROPS["C11"] = {
 }
 _sched("C02", "Theorems over every accepted trace: the non-deferred entries of one execution start one at a time, in strictly increasing index order, "
               "each closed before the next (seqMon, C02_seq); a `task:` entry returns only after the callee, all its descendants at any depth and all "
-              "its deferred entries have finished (C02_call_sync, C02_descendants_done); a woken dedup waiter implies the shared execution is over. "
+              "its deferred entries have finished (C02_call_sync, C02_descendants_done); a woken dedup waiter implies the shared execution is over; "
+              "the started entries are exactly the non-deferred entries of the command list below the loop position, all of them once the body ran to "
+              "its end (C02_no_entry_skipped, C02_body_complete); every command of a callee saw the value its reference passed (literal, a variable of "
+              "the referrer, the referrer's own value; Sched.Pass, valMon beside the acceptor's own step: verdict C02v, C02_callee_sees_passed). "
               "Loop order (list, row-major matrix) and call variables: Props.C02Vars over the Vars model, tied by domain `vars`.")
 PROPS["C02"]["domains"] = [{"name": "sched"}, {"name": "vars", "env": {"VERIF_VARS_ENVDEP": "0"}}]
 PROPS["C02"]["lean"] = "Props.C02All"
